@@ -24,6 +24,7 @@
 #include <new>
 #include <stdexcept>
 #include <thread>
+#include <initializer_list>
 #include <type_traits>
 
 #include "rkcommon/containers/AlignedVector.h"
@@ -874,6 +875,16 @@ struct SelfRef
 };
 static_assert(std::is_trivially_destructible<SelfRef>::value, "SelfRef has no destructor of its own");
 
+// a value type with a list constructor (the shape of JSON-like value trees): building it from a list of ONE value is
+// not a copy of that value - it is a list that holds it (depth + 1). Copies have to be made as copies.
+struct ListVal
+{
+  long leaf;
+  int depth;
+  ListVal(long v = 0) : leaf(v), depth(0) {}
+  ListVal(std::initializer_list<ListVal> l) : leaf(l.size() ? l.begin()->leaf : 0), depth(l.size() ? l.begin()->depth + 1 : 1) {}
+};
+
 static void mk(char &o, uint64_t v) { o = (char)(v * 131 + 7); }
 static void mk(int &o, uint64_t v) { o = (int)(uint32_t)(v * 2654435761u + 1); }
 static void mk(double &o, uint64_t v) { o = (double)(v % 1000003) * 0.5 + 1.0; }
@@ -890,6 +901,14 @@ static void mk(S100 &o, uint64_t v)
 }
 static void mk(Tracked &o, uint64_t v) { o = Tracked(v + 1); }
 static void mk(SelfRef &o, uint64_t v) { o = SelfRef(v + 1); }
+static void mk(ListVal &o, uint64_t v)
+{
+  o = ListVal((long)v + 1);
+  if (v % 3 == 0) {
+    std::initializer_list<ListVal> one = {ListVal((long)v + 1)};
+    o = ListVal(one);  // a genuine one-element list
+  }
+}
 
 static bool eq(char a, char b) { return a == b; }
 static bool eq(int a, int b) { return a == b; }
@@ -902,6 +921,7 @@ static bool eq(const Tracked &a, const Tracked &b)
          (a.chk == (a.v ^ 0xC14C14C14ull) || (a.v == 0 && a.chk == 0xC14C14C14ull));
 }
 
+static bool eq(const ListVal &a, const ListVal &b) { return a.leaf == b.leaf && a.depth == b.depth; }
 static bool eq(const SelfRef &a, const SelfRef &b) { return a.v == b.v && a.w == b.w && a.w == ~a.v && a.self == &a && b.self == &b; }
 
 template <typename T>
@@ -1237,6 +1257,7 @@ static void vectorCaseBody(long k, VecStats &S, int t)
     break;
   }
   case 6: vectorHistory<SelfRef>(k, t, "SelfRef24", 3000, S); break;
+  case 7: vectorHistory<ListVal>(k, t, "ListVal16", 3000, S); break;
   }
 }
 
@@ -1253,7 +1274,7 @@ static const long MAX_DEAD_CASES = 24;
 static void vectorCase(long k)
 {
   VecStats S;
-  int t = (int)(k % 7);
+  int t = (int)(k % 8);
   if (g_gauge) {
     if (g_gauge->started - g_gauge->finished >= MAX_DEAD_CASES) {
       g_gauge->skipped++;
@@ -1274,8 +1295,8 @@ static void vectorCase(long k)
       g_lt->constructed = g_lt->destroyed = 0;
     }
   }
-  static const char *TN[7] = {"vector_histories_char", "vector_histories_int", "vector_histories_double", "vector_histories_S24",
-                              "vector_histories_S100", "vector_histories_Tracked40", "vector_histories_SelfRef24"};
+  static const char *TN[8] = {"vector_histories_char", "vector_histories_int", "vector_histories_double", "vector_histories_S24",
+                              "vector_histories_S100", "vector_histories_Tracked40", "vector_histories_SelfRef24", "vector_histories_ListVal16"};
   vh::count(TN[t]);
   for (int i = 0; i < NOPS; ++i)
     if (S.ops[i])
@@ -1291,7 +1312,7 @@ static void vectorCase(long k)
 static void phaseVectors()
 {
   g_lt   = new vh::Lifetime("C14:AlignedVector:element");
-  long n = (long)vh::tier(4900, 140000);
+  long n = (long)vh::tier(5600, 160000);
   // forked: a release through the wrong function aborts inside the allocator / ASan
   vh::flushStats();
   g_gauge = (CrashGauge *)mmap(0, sizeof(CrashGauge), PROT_READ | PROT_WRITE, MAP_SHARED | MAP_ANONYMOUS, -1, 0);
@@ -1331,7 +1352,7 @@ int main(int argc, char **argv)
       "allocations: every (API kind, byte size, alignment) of the boundary grid {0,1,2,3,7,8,15..17,31..33,63..65,127,128,"
       "4095..4097,65535..65537,2^20,2^24} x {1..4096} through alignedMalloc, alignedMalloc<T>, aligned_allocator<T,A>, then seeded "
       "random alloc/free interleavings (<=512 live blocks, 1 and 8 threads); distinct = hash(kind, bytes, alignment), non-trivial = "
-      "bytes > 0. vectors: seeded histories of 16..120 operations on AlignedVector<T> for 7 element types (plain, 24/100-byte structs, lifetime-tracked, self-referencing); distinct = hash(type, "
+      "bytes > 0. vectors: seeded histories of 16..120 operations on AlignedVector<T> for 8 element types (plain, 24/100-byte structs, lifetime-tracked, self-referencing, one with a list constructor); distinct = hash(type, "
       "operation sequence with arguments), non-trivial = at least one reallocation moved existing elements");
   vh::note("backend", C14_TBB ? "RKCOMMON_TASKING_TBB: scalable_aligned_malloc / scalable_aligned_free (usable size via scalable_msize)"
                               : "_mm_malloc / _mm_free (usable size via malloc_usable_size)");
